@@ -382,6 +382,15 @@ func randomScenario(idx int, seed uint64, rng *hk.Rand) *Scenario {
 				a.Kind, a.Inc = "wu", hk.Pick(rng, oddIncs)
 			}
 		}
+		// every SETTINGS frame must be acknowledged, also one without parameters or with
+		// nothing but identifiers the client does not know
+		if a.Kind == "settings" && rng.Chance(12) {
+			if rng.Bool() {
+				a.Settings = [][2]uint32{}
+			} else {
+				a.Settings = [][2]uint32{{0xf00d, uint32(rng.Intn(1 << 16))}, {8, 1}}
+			}
+		}
 		sc.Actions = append(sc.Actions, a)
 	}
 	return sc
@@ -452,6 +461,27 @@ func specialScenarios(start int, seed uint64, thorough bool) []*Scenario {
 			chunk = int(mf)
 		}
 		sc.Reqs = []ReqSpec{{Upload: -1, RespSize: size, RespChunk: chunk, App: appReadAll, HoldRead: true}}
+		add(sc)
+	}
+	// S5: SETTINGS frames without parameters (as the peer's first frame and mid-stream) and with
+	// unknown identifiers only are acknowledged like any other.
+	for _, first := range []string{"empty", "unknown"} {
+		sc := defaultScenario(0, seed, "S5-settings-"+first+"-first")
+		sc.PeerSettings = [][2]uint32{}
+		if first == "unknown" {
+			sc.PeerSettings = [][2]uint32{{0xf00d, 7}}
+		}
+		sc.InitConnWU = 1 << 20
+		sc.Reqs = []ReqSpec{
+			{Upload: 100000, RespSize: 1000, RespChunk: 16384, App: appReadAll},
+			{Upload: -1, RespSize: 70000, RespChunk: 16384, App: appReadAll, StartDelayUs: 2000},
+		}
+		sc.Actions = []Action{
+			{TrigUp: 20000, TrigTicks: 50, Kind: "settings", Settings: [][2]uint32{}},
+			{TrigUp: 40000, TrigTicks: 50, Kind: "settings", Settings: [][2]uint32{{0xf00d, 1}, {0xbeef, 2}}},
+			{TrigUp: 60000, TrigTicks: 50, Kind: "settings", Settings: [][2]uint32{{4, 70000}}},
+			{TrigUp: 80000, TrigTicks: 50, Kind: "settings", Settings: [][2]uint32{}},
+		}
 		add(sc)
 	}
 	// S4: SETTINGS applied+acked between awaitFlowControl and the DATA write.
